@@ -141,6 +141,38 @@ func (p c13) Gen(r *simhook.Rand, tier string, idx int) harness.Scenario {
 		sc.Faults = []Fault{{Kind: "layout", From: slot, To: slot, Dst: old, AfterSend: 1 + r.Intn(30)}}
 		return sc
 	}
+	if r.Chance(1, 12) {
+		// class "redirected-reads": compressed values are read back while the slots of half of them have just moved:
+		// those reads are answered MOVED and resent, so their replies are decompressed by the reader of another backend
+		// connection than the one they were first sent on - at the same time as that connection's own replies.  Always
+		// explored at statement granularity inside the decompression.
+		sc.Class = "redirected-reads"
+		sc.Env.Masters = 2
+		sc.Env.Compression.Threshold = 8
+		sc.Env.FragNum, sc.Env.FragDen = 0, 0
+		ks := keysForNodes(r, 2, "rr", 4)
+		a := r.Intn(2)
+		wr := ConnScript{Name: "w"}
+		for i, k := range ks[a] {
+			wr.Reqs = append(wr.Reqs, world.Request{Args: append(world.Bins("SET", k), world.Bin(strings.Repeat(fmt.Sprintf("value-%d-of-%s.", i, k), 3+r.Intn(6)))), Wait: true})
+		}
+		sc.Conns = []ConnScript{wr}
+		for ci := 0; ci < 2+r.Intn(2); ci++ {
+			cs := ConnScript{Name: fmt.Sprintf("r%d", ci)}
+			for i := 0; i < 8+r.Intn(24); i++ {
+				cs.Reqs = append(cs.Reqs, world.Request{Args: world.Bins("GET", ks[a][r.Intn(4)])})
+			}
+			cs.Reqs[0].Gap = 8000
+			sc.Conns = append(sc.Conns, cs)
+		}
+		for i := 0; i < 2; i++ {
+			slot := cluster.Slot([]byte(ks[a][i]))
+			sc.Faults = append(sc.Faults, Fault{Kind: "layout", From: slot, To: slot, Dst: 1 - a, AtMs: 5000})
+		}
+		sc.Dense = true
+		sc.DenseFuncs = []string{"(*compressFilter).decompress"}
+		return sc
+	}
 	toggles := r.Chance(1, 4)
 	if toggles {
 		sc.Class = "toggle"
@@ -301,8 +333,13 @@ func (p c13) Run(t *testing.T, s harness.Scenario) harness.Outcome {
 	models := map[string]*refredis.Store{}
 	expected := map[string][]Expect{}
 	anyBig := false
+	shared := refredis.New()
 	for _, cs := range sc.Conns {
 		st := refredis.New()
+		if sc.Class == "redirected-reads" {
+			// one writer that has finished (seconds) before the readers begin: the readers see its data
+			st = shared
+		}
 		models[cs.Name] = st
 		var exp []Expect
 		for _, rq := range cs.Reqs {
